@@ -9,6 +9,8 @@ KINDS = {
     "dbl": dict(L="double", lab="1.5", labelled=True, arithmetic=True, pod=True),
     "str": dict(L="std::string", lab='std::string("a")', labelled=True, arithmetic=False, pod=False),
     "pt": dict(L="Pt", lab="Pt{1, 2}", labelled=True, arithmetic=False, pod=True),
+    # the documentation's own example of a user label: not trivially copyable
+    "flight": dict(L="Flight", lab='Flight{"Company A", 10.}', labelled=True, arithmetic=False, pod=False),
 }
 
 PRELUDE = r'''
@@ -30,6 +32,7 @@ PRELUDE = r'''
 #include <unordered_set>
 #include <vector>
 struct Pt { int a; int b; bool operator==(const Pt &o) const { return a == o.a && b == o.b; } };
+struct Flight { std::string company; double distance; bool operator==(const Flight &o) const { return company == o.company && distance == o.distance; } };
 using namespace BaseGraph;
 '''
 
@@ -90,15 +93,20 @@ def simple_cells(kind, und):
     if kind == "none" or k["arithmetic"]:
         add("writeTextEdgeList-default", f'{G} g(3); io::writeTextEdgeList(g, "/tmp/x");')
     if k["labelled"]:
-        conv = {"int": "std::to_string(l)", "dbl": "std::to_string(l)", "str": "l", "pt": "std::to_string(l.a)"}[kind]
+        conv = {"int": "std::to_string(l)", "dbl": "std::to_string(l)", "str": "l", "pt": "std::to_string(l.a)", "flight": "l.company"}[kind]
         add("writeTextEdgeList-codec", f'{G} g(3); io::writeTextEdgeList<{T}, {k["L"]}>(g, "/tmp/x", [](const {k["L"]} &l) {{ return std::string({conv}); }});')
-        back = {"int": "std::stoi(s)", "dbl": "std::stod(s)", "str": "s", "pt": "Pt{std::stoi(s), 0}"}[kind]
+        back = {"int": "std::stoi(s)", "dbl": "std::stod(s)", "str": "s", "pt": "Pt{std::stoi(s), 0}", "flight": "Flight{s, 0.}"}[kind]
         add("loadTextEdgeList-codec", f'auto p = io::loadTextEdgeList<{T}, {k["L"]}>("/tmp/x", [](const std::string &s) {{ return {k["L"]}({back}); }}); (void)p;')
     add("loadTextEdgeList-default", f'auto p = io::loadTextEdgeList<{T}, {k["L"]}>("/tmp/x"); (void)p;')
     add("loadTextVertexLabeledEdgeList-default", f'auto p = io::loadTextVertexLabeledEdgeList<{T}, {k["L"]}>("/tmp/x"); (void)p;')
     if kind == "none" or k["pod"]:
         add("writeBinaryEdgeList-default", f'{G} g(3); io::writeBinaryEdgeList(g, "/tmp/x");')
         add("loadBinaryEdgeList-default", f'auto g = io::loadBinaryEdgeList<{T}, {k["L"]}>("/tmp/x"); (void)g;')
+    if k["labelled"] and kind != "str":
+        # caller-supplied serialisers (the only way to write a label that is not plain data; std::string
+        # labels are rejected by a documented static_assert)
+        add("writeBinaryEdgeList-codec", f'{G} g(3); io::writeBinaryEdgeList<{T}, {k["L"]}>(g, "/tmp/x", [](std::ofstream &f, {k["L"]} l) {{ (void)f; (void)l; }});')
+        add("loadBinaryEdgeList-codec", f'auto g = io::loadBinaryEdgeList<{T}, {k["L"]}>("/tmp/x", [](std::ifstream &f, {k["L"]} &l) -> std::ifstream & {{ (void)l; return f; }}); (void)g;')
     return c
 
 
